@@ -91,6 +91,14 @@ class Run(object):
         return False
 
     def _resnap(self):
+        if any(int(r) == 0 for r in self.t.ranks):
+            # a rank-0 bond: the legal (if useless) outcome of a relative threshold or a rank cap applied on a
+            # non-orthonormalised side that wiped out the tensor.  Structurally consistent, but no longer a tensor the
+            # properties speak about: the history ends here and a fresh object is drawn.
+            self.probes["object_with_rank0_bond_discarded"] += 1
+            self.t = None
+            self.snap = None
+            return
         self.snap = M.Snapshot(self.t)
         self.log.add("snap", self.snap.meta, arr_digest(self.snap.dense))
         self.state_keys.add((self.snap.meta, self.last_op))
